@@ -12,7 +12,7 @@ if [ ! -d "$dst" ]; then mkdir -p "$dst"; cp /tmp/wt/$prop/seeded/$mn/{patch.dif
 pkg=$(python3 -c "import json;print(json.load(open('$dst/meta.json'))['demo_package'])")
 wt=/tmp/sv-$prop-$mn-$$
 git -C /repo worktree add -q --detach "$wt" HEAD || exit 3
-cleanup() { git -C /repo worktree remove --force "$wt" 2>/dev/null; git -C /repo checkout -- . 2>/dev/null; }
+cleanup() { git -C /repo worktree remove --force "$wt" 2>/dev/null; rm -rf "/tmp/svv-$prop-$mn-$$"; }
 trap cleanup EXIT
 cp "$dst/demo_test.go" "$wt/$pkg/zz_seed_demo_test.go"
 res_pristine=$(cd "$wt/pkg/go" && go test -vet=off -count=1 ./${pkg#pkg/go/}/ 2>&1 | tail -3)
@@ -26,11 +26,14 @@ echo "--- mutant, existing suite: $res_suite"
 cp "$dst/demo_test.go" "$wt/$pkg/zz_seed_demo_test.go"
 res_demo=$(cd "$wt/pkg/go" && go test -vet=off -count=1 ./${pkg#pkg/go/}/ 2>&1 | grep -E "^(--- FAIL|FAIL|ok)" | head -4 | tr '\n' ' ')
 echo "--- mutant, demo: $res_demo"
-# regenerate the patch against current HEAD so it applies cleanly to /repo
+# regenerate the patch against current HEAD so it applies cleanly
 rm "$wt/$pkg/zz_seed_demo_test.go"
 git -C "$wt" diff HEAD > "$dst/patch.diff"
-git -C /repo apply "$dst/patch.diff" || { echo "cannot apply to /repo"; exit 4; }
+# run the check against the patched scratch worktree through a private copy of /verif, so that /repo itself
+# (and anything running against it) is never touched
+vc=/tmp/svv-$prop-$mn-$$
+rsync -a --exclude bin --exclude .git --exclude evidence --exclude replays --exclude seeded /verif/ "$vc"/
+sed -i "s#=> /repo/pkg/go#=> $wt/pkg/go#" "$vc/go.mod"
 echo "--- check $prop $tier against the mutant:"
-(cd /verif && ./run.sh "$prop" "$tier" 2>&1 | grep -E "^(VIOLATION|OK|INCONCLUSIVE|KNOWN)" | head -4)
-git -C /repo checkout -- .
-git -C /repo status --short
+(cd "$vc" && VERIF_REPO="$wt" ./run.sh "$prop" "$tier" 2>&1 | grep -E "^(VIOLATION|OK|INCONCL|KNOWN)" | sed "s#$vc#/verif#g" | head -4)
+rm -rf "$vc"
